@@ -192,12 +192,24 @@ def r1(ctx):
                                     want = LN.l_add(nr, LN.l_mul(rc, rs))
                                     ctx.check(LN.l_norm(want) == LN.l_norm(le), R, f"{lab}:non_repeat+count*size==len(encode)[{' & '.join(sorted(set(allc))) or 'always'}]", m, ci.methods["encode"], f"len(encode) = {LN.l_fmt(le)}", f"non_repeat_size + repeat_count*repeat_size = {LN.l_fmt(want)}")
                     ctx.require(n > 0, f"{m.relpath}: {cname}: no comparable paths")
-    # encode_c_string really yields `length` bytes
+    # encode_c_string really yields `length` bytes: witness strings (shorter, exact, longer, empty, multi-byte) propagated through
+    # the source by the checker's interpreter
     em = ctx.repo.module("pyairtouch.comms.encoding")
     fn = em.get_function("encode_c_string")
-    body = [norm_text(s) for s in fn.body if not (isinstance(s, ast.Expr) and isinstance(s.value, ast.Constant))]
-    ok = body == ["buffer = bytearray(value, encoding=STRING_ENCODING)", "buffer.extend(b'\\x00' * (length - len(buffer)))", "return buffer[:length]"]
-    ctx.check(ok, R, "encoding.encode_c_string:exact-length", em, fn, "pads with NUL up to `length`, then truncates to `length`", " ; ".join(body))
+    from ..minieval import Mini, Unsupported
+
+    bad = None
+    pv, pl = [a_.arg for a_ in fn.args.args][:2]
+    for text, n in (("Bed", 8), ("Bedroom1", 8), ("Bedroom number 12", 8), ("", 4), ("caf\u00e9", 5), ("caf\u00e9s", 5), ("x", 0), ("Living", 16)):
+        want = (text.encode("utf-8") + b"\0" * n)[:n] if len(text.encode("utf-8")) < n else text.encode("utf-8")[:n]
+        try:
+            got = Mini(ctx.repo, em, {}).function_value(fn, {pv: text, pl: n})
+        except Unsupported as ex:
+            raise AnalysisError(f"{em.relpath}: encode_c_string left the evaluable fragment: {ex}")
+        if not isinstance(got, (bytes, bytearray)) or bytes(got) != want:
+            bad = f"encode_c_string({text!r}, {n}) = {bytes(got)!r} ({len(got) if isinstance(got, (bytes, bytearray)) else '?'} bytes), expected {want!r}"
+            break
+    ctx.check(bad is None, R, "encoding.encode_c_string:exact-length", em, fn, "the UTF-8 bytes padded with NUL up to `length`, or cut at `length`: always exactly `length` bytes (8 witnesses)", bad or "")
 
 
 def _canon_enc(x):
@@ -597,14 +609,25 @@ def r4(ctx):
     f = __import__("sa.rules.common", fromlist=["sock_fn"]).sock_fn(ctx, "_read_one_message")
     m, g = f.module, f.cfg
     rets = [n for n in g.nodes if n.kind == "stmt" and isinstance(n.ast, ast.Return) and isinstance(n.ast.value, ast.Tuple)]
-    acs = [n for n, c in f.calls("assert_complete")]
-    hdr_ac = [n for n, c in f.calls("header_result.assert_complete")]
-    msg_ac = [n for n, c in f.calls("message_result.assert_complete")]
+    acs = f.calls("assert_complete")
+
+    def recv_text(n, c):
+        return f.expand_text(c.func.value, n) if isinstance(c.func, ast.Attribute) else ""
+
+    # by role, not by the names of the locals: the receiver of assert_complete() is the result of the header decoder / of the
+    # decoder looked up in the registry
+    hdr_ac = [n for n, c in acs if recv_text(n, c).startswith("self._registry.header_decoder.decode(")]
+    msg_ac = [n for n, c in acs if recv_text(n, c).startswith("self._registry.get_decoder(")]
     ok = bool(rets) and bool(hdr_ac) and bool(msg_ac) and all(g.dominates(a.id, r.id) for r in rets for a in hdr_ac + msg_ac)
     ctx.check(ok, "C03.R4", "_read_one_message:nothing-left-over", m, f.node, "assert_complete() is called on the header result and on the message result before the success return", f"{len(hdr_ac)} header / {len(msg_ac)} message assert_complete calls dominate the return: {ok}")
-    decs = f.calls("message_decoder.decode")
-    ok = len(decs) == 1 and [norm_text(a) for a in decs[0][1].args] == ["message_buffer", "header"]
-    ctx.check(ok, "C03.R4", "_read_one_message:decoder-gets-payload-and-header", m, f.node, "message_decoder.decode(message_buffer, header)", norm_text(decs[0][1]) if decs else "")
+    decs = [(n, c) for n, c in f.calls_pred(lambda d: d.endswith(".decode")) if isinstance(c.func, ast.Attribute) and f.expand_text(c.func.value, n).startswith("self._registry.get_decoder(")]
+    ok = False
+    if len(decs) == 1:
+        n_, c_ = decs[0]
+        a0 = f.expand_text(c_.args[0], n_) if len(c_.args) > 0 else ""
+        a1 = f.expand_text(c_.args[1], n_) if len(c_.args) > 1 else ""
+        ok = "readexactly(" in a0 and "message_length" in a0 and a1.startswith("self._registry.header_decoder.decode(") and a1.endswith(".header") and not c_.keywords
+    ctx.check(ok, "C03.R4", "_read_one_message:decoder-gets-payload-and-header", m, f.node, "the decoder looked up for header.message_id gets the payload bytes just read and the decoded header", norm_text(decs[0][1]) if decs else "")
     gd = f.calls("get_decoder")
     ok = len(gd) == 1 and norm_text(gd[0][1].args[0]) == "header.message_id"
     ctx.check(ok, "C03.R4", "_read_one_message:decoder-by-header-id", m, f.node, "decoder looked up with header.message_id", norm_text(gd[0][1]) if gd else "")
